@@ -56,7 +56,7 @@ def run(ctx):
         fns = sorted({root_fn(f, x[0].name) for x in sites})
         allowed = {adt + "::from_bytes", adt + "::join"}
         extra = [x for x in fns if x not in allowed and "arbitrary::Arbitrary" not in x and "::arbitrary" not in x]
-        ctx.ob("R-WHO", "%s:literal-sites" % short(adt), not extra and allowed <= set(fns),
+        ctx.ob("R-WHO", "%s:literal-sites" % short(adt), not extra and adt + "::from_bytes" in fns,
                "%s {..} is built only in from_bytes, join (and the test-support Arbitrary impl)" % short(adt),
                detail={"sites": fns})
         # join copies the offsets of self
@@ -91,30 +91,30 @@ def run(ctx):
                detail={k: sorted(v) for k, v in off_writers.items()} or None)
         bw = set()
         for k, v in writers.items():
-            bw |= v
-        allowed_bw = {adt + "::unshare", adt + "::path_into_dir", adt + "::parent"}
-        ctx.ob("R-WHO", "%s:bytes-mutators" % short(adt), bw <= allowed_bw,
-               "the byte buffer of %s is modified after construction only by unshare (copy), path_into_dir (append '/') "
-               "and parent (truncate at ≥ the path offset)" % short(adt), detail=sorted(bw))
-        # parent truncates at >= the path offset
-        pb = f.body(adt + "::parent")
-        if pb is None:
+            if k.startswith(bytes_f):
+                bw |= v
+        off = "path_start" if adt.endswith("Rsync") else "path_idx"
+        # Who may touch the buffer: unshare (copy), path_into_dir (append '/'), join (a clone whose buffer is replaced by
+        # the checked, extended one) — and any function that does nothing to it but cut it at or after the path offset
+        # (parent is one; a new `to_module` would be another).  The latter are recognised by what they do.
+        fixed = {adt + "::unshare", adt + "::path_into_dir", adt + "::join"}
+        cutters = {}
+        for w in sorted(bw - fixed):
+            wb = f.body(w)
+            cutters[w] = shrinks_only(f, wb, adt, bytes_f, off) if wb is not None else (False, "no body")
+        if adt + "::parent" not in cutters and f.body(adt + "::parent") is not None:
+            cutters[adt + "::parent"] = shrinks_only(f, f.body(adt + "::parent"), adt, bytes_f, off, need_site=True)
+        ctx.ob("R-WHO", "%s:bytes-mutators" % short(adt), all(ok for ok, _ in cutters.values()),
+               "the byte buffer of %s is modified after construction only by unshare (copy), path_into_dir (append '/'), "
+               "join (checked extension) and functions that only truncate it at ≥ the path offset" % short(adt),
+               detail={"writers": sorted(bw), "not only truncating at or after the path offset":
+                       {k: d for k, (ok, d) in cutters.items() if not ok} or None})
+        if f.body(adt + "::parent") is None:
             ctx.missing("R-FLOW", short(adt) + "::parent", adt + "::parent")
-        else:
-            ctx.saw_fn(pb.name)
-            tr = [c for c in pb.calls() if c.name == "truncate"]
-            off = "path_start" if adt.endswith("Rsync") else "path_idx"
-            ok = len(tr) == 1
-            detail = None
-            if ok:
-                a = K.arg_terms(tr[0])
-                lens = K.sym_of(pb).defs_of_var(a[1][2]) if a[1][0] == "var" else [(None, a[1])]
-                rs = [render(strip_deep(x)) for _, x in lens]
-                detail = rs
-                ok = all(re.match(r"^self\.%s$" % off, r) or re.match(r"^AddWithOverflow\(AddWithOverflow\(self\.%s, .*\)\.0, 1\)\.0$" % off, r)
-                         for r in rs) and len(rs) == 2
-            ctx.ob("R-FLOW", "%s::parent:truncate-at-or-after-path-offset" % short(adt), ok,
-                   "%s::parent truncates the copy at %s or later" % (short(adt), off), where=pb.loc, detail=detail)
+        for w, (ok, detail) in sorted(cutters.items()):
+            ctx.saw_fn(w)
+            ctx.ob("R-FLOW", "%s:truncate-at-or-after-path-offset" % w, ok,
+                   "%s truncates the copy at %s or later" % (w, off), where=f.body(w).loc if f.body(w) else None, detail=detail)
 
     # ---- C12.b permitted characters ---------------------------------------------
     ub = f.body("uri::is_u8_uri_ascii")
@@ -334,6 +334,91 @@ def run(ctx):
         ok = mp.holds(rb.name)
         ctx.ob("R-GRD", "Rsync::relative_to:same-module", ok, "relative_to returns Some only for URIs of the same module",
                where=rb.loc, detail=None if ok else K.why(f, mp, rb.name))
+
+
+
+_SHRINK = {"truncate": 1, "split_off": 1}
+
+
+def _addends(t, consts, depth=0):
+    """The addends of a sum spelt with checked / plain additions: `a + b + 1` → [a, b, 1]; None if something is subtracted."""
+    t = K.fold_consts(strip_deep(t), consts)
+    if t[0] == "mvar":
+        t = strip_deep(t[3])
+    if t[0] == "field" and str(t[2]) == "0" and strip_deep(t[1])[0] == "bin" and strip_deep(t[1])[1] == "AddWithOverflow":
+        t = strip_deep(t[1])
+    if t[0] == "bin" and t[1] in ("Add", "AddWithOverflow", "AddUnchecked") and depth < 12:
+        x, y = _addends(t[2], consts, depth + 1), _addends(t[3], consts, depth + 1)
+        return None if x is None or y is None else x + y
+    return [t]
+
+
+def at_or_after(f, b, term, off, depth=0):
+    """Is the usize `term` ≥ self.<off> whatever the inputs: `self.off` plus unsigned addends — in every definition that
+    reaches it, through helpers that were folded in, `match`/`if` arms, `map_or(0, |i| i + 1)` …"""
+    from props.C14 import fold_accessors
+    s = K.sym_of(b)
+    t = strip_deep(term)
+    if t[0] == "var" and depth < 6:
+        ds = s.defs_of_var(t[2])
+        return bool(ds) and all(at_or_after(f, b, x, off, depth + 1) for _, x in ds)
+    adds = _addends(fold_accessors(f, t), f.consts)
+    if adds is None:
+        return False
+    hits = [x for x in adds if re.match(r"^self\.%s$" % off, render(x))]
+    if len(hits) >= 1:
+        # every other addend is an unsigned quantity (usize arithmetic is checked: it cannot wrap below the offset)
+        return not any(x[0] == "const" and isinstance(x[1], int) and x[1] < 0 for x in adds)
+    if len(adds) == 1 and adds[0][0] == "var" and depth < 6:
+        return at_or_after(f, b, adds[0], off, depth + 1)
+    if len(adds) > 1 and depth < 6:
+        # one addend may itself be a variable holding `self.off + …`
+        return any(x[0] == "var" and at_or_after(f, b, x, off, depth + 1) for x in adds)
+    return False
+
+
+def shrinks_only(f, b, adt, bytes_f, off, need_site=False):
+    """(ok, detail): everything this function does to the byte buffer of an `adt` value is cutting it at a length that is
+    at or after the path offset of self (Bytes::truncate / split_off)."""
+    from props.C14 import _root_local
+    s = K.sym_of(b)
+    detail = {"cuts": [], "problems": []}
+    mut_locals = set()
+    for bi, blk in enumerate(b.blocks):
+        if b.is_cleanup(bi):
+            continue
+        for st in blk["stmts"]:
+            if st["s"] != "assign":
+                continue
+            if any(p[0] == "f" and p[1] == bytes_f and p[2] == adt for p in st["pl"]["p"]):
+                detail["problems"].append("assigns the buffer (line %s)" % (st.get("sp") or ["?"])[0])
+            rv = st["rv"]
+            if rv["r"] == "ref" and rv.get("mut") and any(p[0] == "f" and p[1] == bytes_f and p[2] == adt for p in rv["pl"]["p"]):
+                mut_locals.add(st["pl"]["l"])
+    for c in b.calls():
+        if b.is_cleanup(c.bb):
+            continue
+        roots = set()
+        for a in c.args:
+            pl = a.get("m") or a.get("c")
+            if pl is not None:
+                roots.add(_root_local(b, pl["l"]))
+                roots.add(pl["l"])
+        if not (roots & mut_locals):
+            continue
+        if c.name in _SHRINK and (c.krate or "") in ("bytes", "alloc", "std", "core"):
+            t = K.arg_terms(c)[_SHRINK[c.name]]
+            ok = at_or_after(f, b, t, off)
+            detail["cuts"].append({"call": c.name, "length": render(strip_deep(t))[:200], "at or after self.%s" % off: ok})
+            if not ok:
+                detail["problems"].append("%s at a length not shown to be ≥ self.%s" % (c.name, off))
+        elif c.name in ("deref_mut", "as_mut", "borrow_mut"):
+            mut_locals.add(c.dest["l"])
+        else:
+            detail["problems"].append("hands the buffer to %s" % (c.res or c.name))
+    if need_site and not detail["cuts"]:
+        detail["problems"].append("no truncation found")
+    return (not detail["problems"], detail)
 
 
 _ELEMENTWISE = {"for_each", "map", "inspect", "all", "any", "filter", "find", "position", "take_while", "skip_while",
